@@ -110,6 +110,16 @@ func streamChild(c *Ctx, d time.Duration, prop string, args ...string) bool {
 		if len(tail) > 3000 {
 			tail = tail[len(tail)-3000:]
 		}
+		// the reason comes first in a Go crash report: keep it in front of the stack tail
+		for _, l := range strings.Split(stderr.String(), "\n") {
+			if strings.HasPrefix(l, "panic:") || strings.HasPrefix(l, "fatal error:") || strings.HasPrefix(l, "log.Fatal in the code under test") {
+				if len(l) > 600 {
+					l = l[:600]
+				}
+				tail = l + " | ... | " + tail
+				break
+			}
+		}
 		c.OpLocal("child %s ended without finishing: %v", strings.Join(args, " "), werr)
 		c.Violate(prop, prop+"/process-died", fmt.Sprintf("the process running the code under test died (%v): %s", werr, tail), c.History())
 		if open {
